@@ -752,7 +752,7 @@ func checkC18(r *Run) {
 	type mk = func() *descgen.Entry
 	var files []mk
 	// descriptors without temporal fields, so that an inserted one is the only unmappable field
-	files = append(files, descgen.K18, descgen.K5, func() *descgen.Entry { return descgen.K10(false) }, descgen.K8, descgen.K2)
+	files = append(files, descgen.K18, descgen.K15, descgen.K5, func() *descgen.Entry { return descgen.K10(false) }, descgen.K8, descgen.K2)
 	nr := r.pick(2, 36)
 	for i := 0; i < nr; i++ {
 		i := i
